@@ -1,2 +1,5 @@
 import Driver.Codec
 import Driver.Enum
+import Driver.StrHelpers
+import Driver.Names
+import Driver.Splicer
